@@ -41,6 +41,14 @@ def classify(h, r):
             else:
                 inconc.append(("unwinding", d))
             continue
+        if "caller_location is not currently supported" in d and not getattr(h, "stub_loc", False):
+            # MechError::with_compiler_loc() (#[track_caller]) is where every error value of the repo is finished; Kani
+            # cuts the path there.  Reaching it means: this call is about to return Err.
+            if h.domain == "reject":
+                rejected_by_panic = True
+            else:
+                tags.append(("VP:rejected-by-error-return", "%s:%s in %s" % (f["file"], f["line"], f["function"][:80])))
+            continue
         m = re.search(r"VP:[A-Za-z0-9_\-:.]+", d)
         if m:
             tags.append((m.group(0), "%s:%s" % (f["file"], f["line"])))
